@@ -81,10 +81,11 @@ type req5 struct {
 }
 
 type conn5 struct {
-	T     string `json:"t"`              // label: the CONNECT exchange id is T; default tunnel host is T.vh.test
-	Auth  string `json:"auth,omitempty"` // literal CONNECT authority as the client sends it ("" = T.vh.test:443)
-	Frag  int    `json:"frag,omitempty"` // the client's first TLS record reaches the proxy in two pieces: Frag bytes, then (once read) the rest
-	Inner string `json:"inner"`          // tls | clear
+	T      string `json:"t"`                // label: the CONNECT exchange id is T; default tunnel host is T.vh.test
+	Auth   string `json:"auth,omitempty"`   // literal CONNECT authority as the client sends it ("" = T.vh.test:443)
+	CStyle string `json:"cstyle,omitempty"` // how the CONNECT request is spelled: "" (HTTP/1.1) | http10 | http10-keepalive | close | keepalive | proxy-keepalive
+	Frag   int    `json:"frag,omitempty"`   // the client's first TLS record reaches the proxy in two pieces: Frag bytes, then (once read) the rest
+	Inner  string `json:"inner"`            // tls | clear
 	// Pre: complete exchanges on the same client connection before the CONNECT:
 	// "get" = a proxied absolute-form GET, "connect-clear" = a CONNECT to
 	// another authority carrying one cleartext request.
@@ -99,9 +100,12 @@ type c05Case struct {
 	Listener  string `json:"listener"` // plain | shaped | tls
 	Transport string `json:"transport"`
 	// shaped listener settings (0 = library defaults): SetLatency, SetRead/WriteBitrate
-	LatencyMs int     `json:"latency_ms,omitempty"`
-	Bitrate   int64   `json:"bitrate,omitempty"`
-	Conns     []conn5 `json:"conns"`
+	LatencyMs int   `json:"latency_ms,omitempty"`
+	Bitrate   int64 `json:"bitrate,omitempty"`
+	// Seq: the connections of the case use the proxy one after the other (each is
+	// closed, and its handler has finished, before the next one connects)
+	Seq   bool    `json:"seq,omitempty"`
+	Conns []conn5 `json:"conns"`
 }
 
 // authInfo describes the CONNECT authority of a connection as the client
@@ -222,6 +226,32 @@ func genCase(rng *rand.Rand, stream string, idx int, race bool) c05Case {
 		}
 		return c
 	}
+	if idx == 2 && !slow && !race {
+		// fixed part of every batch: connections that use one proxy strictly one
+		// after the other, alternating a MITM'd TLS tunnel with a tunnel that
+		// carries cleartext (state left behind by a finished connection must not
+		// leak into the next one); CONNECT spellings cycle through all styles
+		c.Seq, c.Transport, c.LatencyMs, c.Bitrate = true, "pipe", 0, 0
+		if c.Listener == "tls" {
+			c.Listener = "plain"
+		}
+		styles := []string{"", "http10", "close", "http10-keepalive", "keepalive", "proxy-keepalive"}
+		for ci := 0; ci < 6; ci++ {
+			cs := conn5{T: fmt.Sprintf("%sk%dc%dt", tag, idx, ci), Inner: []string{"tls", "clear"}[ci%2], CStyle: styles[(ci+int(rng.Int63()%6))%6]}
+			th := modx.Host(cs.T)
+			for i := 0; i < 3; i++ {
+				q := req5{X: fmt.Sprintf("%sk%dc%dr%d", tag, idx, ci, i), Form: "origin", Proto: "HTTP/1.1", Host: th}
+				q.Target = "/" + q.X
+				cs.Reqs = append(cs.Reqs, q)
+			}
+			c.Conns = append(c.Conns, cs)
+		}
+		return c
+	}
+	if !slow && !race && rng.Intn(4) == 0 {
+		c.Seq = true
+		n = 3 + rng.Intn(4)
+	}
 	for ci := 0; ci < n; ci++ {
 		cs := conn5{T: fmt.Sprintf("%sk%dc%dt", tag, idx, ci), Inner: "tls"}
 		if c.Listener != "tls" {
@@ -257,6 +287,9 @@ func genCase(rng *rand.Rand, stream string, idx int, race bool) c05Case {
 			}
 		}
 		ai := parseAuth(cs)
+		if c.Listener != "tls" && rng.Intn(100) < 45 {
+			cs.CStyle = []string{"http10", "http10-keepalive", "close", "keepalive", "proxy-keepalive"}[rng.Intn(5)]
+		}
 		if c.Listener != "tls" && rng.Intn(100) < 40 {
 			for k, n := 0, 1+rng.Intn(2); k < n; k++ {
 				cs.Pre = append(cs.Pre, []string{"get", "get", "get", "connect-clear"}[rng.Intn(4)])
@@ -459,7 +492,20 @@ func runConn(g *modx.Rig, c c05Case, cs conn5, out *connOut) {
 		a := modx.NewAction()
 		a.Srv = cl.Srv
 		g.Rec.SetAction(cs.T, a)
-		if err := cl.Send(fmt.Sprintf("CONNECT %s HTTP/1.1\r\nHost: %s\r\nX-Vh-Id: %s\r\n\r\n", ai.auth, ai.auth, cs.T)); err != nil {
+		proto, extra := "HTTP/1.1", ""
+		switch cs.CStyle {
+		case "http10":
+			proto = "HTTP/1.0"
+		case "http10-keepalive":
+			proto, extra = "HTTP/1.0", "Connection: keep-alive\r\n"
+		case "close":
+			extra = "Connection: close\r\n"
+		case "keepalive":
+			extra = "Connection: keep-alive\r\n"
+		case "proxy-keepalive":
+			extra = "Proxy-Connection: keep-alive\r\n"
+		}
+		if err := cl.Send(fmt.Sprintf("CONNECT %s %s\r\nHost: %s\r\n%sX-Vh-Id: %s\r\n\r\n", ai.auth, proto, ai.auth, extra, cs.T)); err != nil {
 			out.harness = "CONNECT write: " + err.Error()
 			return
 		}
@@ -545,13 +591,27 @@ func runConn(g *modx.Rig, c c05Case, cs conn5, out *connOut) {
 					// unblock a hijacker that is reading the wrong connection
 					cl.Close()
 				}
-				// wait for the hijacker to have returned (in-process signal)
-				select {
-				case <-a.Returned:
-				case <-time.After(modx.Watchdog):
-					out.harness = "watchdog: hijacker did not return"
+				// wait for the hijacker to have returned (in-process signal), or for the
+				// proxy to have closed the socket without the hijacker ever having run
+				for deadline := time.Now().Add(modx.Watchdog); ; {
+					select {
+					case <-a.Returned:
+						return
+					default:
+					}
+					if cl.Srv.Closed() {
+						select {
+						case <-a.Returned:
+						case <-time.After(50 * time.Millisecond):
+						}
+						return
+					}
+					if time.Now().After(deadline) {
+						out.harness = "watchdog: hijacker did not return"
+						return
+					}
+					time.Sleep(2 * time.Millisecond)
 				}
-				return
 			}
 			m := "GET"
 			if q.Form == "connect" {
@@ -613,6 +673,19 @@ func runCase(r *vh.Run, ca *modx.CA, c c05Case) {
 	var wg sync.WaitGroup
 	for ci := range c.Conns {
 		outs[ci] = &connOut{}
+		if c.Seq {
+			// one after the other: the connection is closed and the proxy has
+			// finished with it before the next one connects
+			runConn(g, c, c.Conns[ci], outs[ci])
+			if cl := outs[ci].cl; cl != nil {
+				cl.Close()
+				if oc, _ := vh.Await(cl.Srv.Closed, vh.AwaitOpts{Activity: g.Activity}); oc != vh.Happened {
+					r.Inconclusive("the proxy did not finish with a closed connection ("+oc.String()+")", nil)
+				}
+				vh.WaitGone("martian/v3.(*Proxy).handleLoop", vh.AwaitOpts{Activity: g.Activity})
+			}
+			continue
+		}
 		wg.Add(1)
 		go func(ci int) {
 			defer wg.Done()
@@ -713,6 +786,16 @@ func runCase(r *vh.Run, ca *modx.CA, c c05Case) {
 				if !ro.reached {
 					// pipelined behind a request whose answer never came; reported there
 					r.Count("pipelined_requests_not_reached", 1)
+					continue
+				}
+				cerr := ro.cerr
+				if cerr == nil {
+					cerr = ro.sentErr
+				}
+				if cs.Inner == "tls" && cerr != nil && !modx.IsWatchdog(cerr) {
+					// every earlier request of the connection was answered, this one was
+					// written into the open tunnel, never shown to a modifier and never answered
+					r.Violation("C05:response-in-session:tunnel-ended", "a request written into the decrypted tunnel was never presented to the modifiers and got no response inside the TLS session: the proxy ended the tunnel ("+cerr.Error()+")", wit(nil))
 					continue
 				}
 				r.Inconclusive("no modifier call observed for a request sent inside the tunnel", wit(nil))
@@ -845,6 +928,16 @@ func runCase(r *vh.Run, ca *modx.CA, c c05Case) {
 			r.Class(fmt.Sprintf("pipeline/%s/%s/%s", ro.grp, cs.Inner, hj))
 			if cs.Inner == "tls" {
 				r.Class(fmt.Sprintf("hello-fragment-%d/%s/idx%s", cs.Frag, lclass, idxBucket(ro.idx)))
+			}
+			if c.Listener != "tls" {
+				st := cs.CStyle
+				if st == "" {
+					st = "http11"
+				}
+				r.Class(fmt.Sprintf("connect-style-%s/%s/idx%s", st, cs.Inner, idxBucket(ro.idx)))
+			}
+			if c.Seq {
+				r.Class(fmt.Sprintf("sequential/conn%d/%s/%s", ci, cs.Inner, lclass))
 			}
 			if c.Listener == "shaped" {
 				r.Class(fmt.Sprintf("shaped-latency-%dms/%s/%s", c.LatencyMs, cs.Inner, q.Form))
